@@ -44,6 +44,9 @@ type Config struct {
 	Queries        int   // range / prefix / k queries per check point
 	PrefixScope    bool  // draw contents from the C04-scope pool (collation)
 	LongHistories  int
+	// FanHistories: histories whose pool is one 256-way fan-out family plus a few unrelated keys
+	// (large non-root nodes with siblings), checked rarely: for monitors that are costly per check
+	FanHistories int
 	// ClosedAllQueries: closed explorations query all bound pairs / derived prefixes after every transition
 	ClosedAllQueries bool
 	LongOps          int
@@ -70,6 +73,8 @@ type Session[K any] struct {
 	trace   *ev.Hasher // result trace (twin comparison)
 
 	prev *art.VerifTree // last dump (census / shape)
+
+	recentlyDeleted []K // last few keys removed by Delete (absent-probe candidates)
 }
 
 func NewSession[K any](k *kinds.Kind[K], cfg *Config, res *ev.Result, unit string) *Session[K] {
@@ -190,6 +195,12 @@ func (s *Session[K]) Delete(k K) {
 		return
 	}
 	want := s.M.Del(k)
+	if want {
+		s.recentlyDeleted = append(s.recentlyDeleted, s.K.Clone(k))
+		if len(s.recentlyDeleted) > 4 {
+			s.recentlyDeleted = s.recentlyDeleted[1:]
+		}
+	}
 	s.opCount++
 	if s.Quiet {
 		return
@@ -414,8 +425,11 @@ func (s *Session[K]) RunSweep(r *rng.R) {
 	s.every = 1
 	n := len(order)
 	targets := []int{5, 3, 6, 17, 12, 18, 11, 49, 37, 50, 36, n, 38, 36, 49, 13, 11, 17, 4, 2, 5, 0}
-	if r.Chance(1, 2) {
+	switch r.Intn(3) {
+	case 0:
 		targets = []int{4, 5, 4, 5, 3, 4, 16, 17, 16, 17, 13, 12, 13, 12, 48, 49, 48, 49, 38, 37, 38, 37, 36, 12, 3, 1, 0}
+	case 1: // stay inside the 48 class: fill it completely, punch holes, refill, churn
+		targets = []int{17, 48, 40, 48, 47, 48, 30, 48, 13, 48, 47, 48, 20, 31, 30, 31, 30, 31, 30, 31, 30, 31, 30, 31, 30, 31, 30, 31, 30, 31, 30, 31, 30, 31, 30, 31, 30, 31, 30, 48, 12, 3, 0}
 	}
 	if s.Res.WantSample() {
 		s.Res.Sample(map[string]any{"unit": s.Unit, "kind": s.K.Name, "family_size": n, "first": s.K.Show(order[0]), "targets": targets})
